@@ -1106,6 +1106,47 @@ fn main() {
     )
     .unwrap();
 
+    // ---- dependency pins: every (name, version) of Cargo.lock and the requirement lines of [dependencies]
+    let lock = std::fs::read_to_string(repo.join("Cargo.lock")).unwrap_or_default();
+    let mut lock_versions: Vec<(String, String)> = vec![];
+    let mut cur_name: Option<String> = None;
+    for line in lock.lines() {
+        let l = line.trim();
+        if let Some(r) = l.strip_prefix("name = ") {
+            cur_name = Some(r.trim_matches('"').to_string());
+        } else if let Some(r) = l.strip_prefix("version = ") {
+            if let Some(n) = cur_name.take() {
+                lock_versions.push((n, r.trim_matches('"').to_string()));
+            }
+        }
+    }
+    let mut cargo_deps: Vec<(String, String)> = vec![];
+    let mut in_deps = false;
+    for line in cargo.lines() {
+        let l = line.trim();
+        if l.starts_with('[') {
+            in_deps = l == "[dependencies]";
+            continue;
+        }
+        if in_deps && !l.starts_with('#') {
+            if let Some((k, v)) = l.split_once('=') {
+                cargo_deps.push((k.trim().to_string(), v.trim().split_whitespace().collect::<Vec<_>>().join(" ")));
+            }
+        }
+    }
+    writeln!(
+        o,
+        "Definition lock_versions : list (string * string) := [\n  {}].\n",
+        lock_versions.iter().map(|(k, v)| format!("({}, {})", cs(k), cs(v))).collect::<Vec<_>>().join(";\n  ")
+    )
+    .unwrap();
+    writeln!(
+        o,
+        "Definition cargo_deps : list (string * string) := [\n  {}].\n",
+        cargo_deps.iter().map(|(k, v)| format!("({}, {})", cs(k), cs(v))).collect::<Vec<_>>().join(";\n  ")
+    )
+    .unwrap();
+
     // ---- constants (integer-valued), dependency ordered; string constants as a table
     let mut groups: BTreeMap<String, Vec<usize>> = BTreeMap::new();
     let mut order: Vec<String> = vec![];
